@@ -188,6 +188,41 @@ impl C06 {
                 }
             }
         }
+        // the wrap family: the object leaves its source container and is wrapped at once in a NEWLY ALLOCATED object
+        // (variant, array, tuple, struct), which is then the only thing referring to it: objects allocated while a
+        // cycle is marking must be traced too
+        let wraps: [(&str, &str, &str, &str, &str); 4] = [
+            // (name, type declarations, wrapper type, wrapping expression with X, read-back of the payload's first element from W)
+            ("variant", "", "option<array<int>>", "option.some(X)", "match W {\n  .some(pv) -> vh_emit_int(pv[0])\n  .none -> vh_emit_int(0 - 1)\n}\n"),
+            ("array", "", "array<array<int>>", "[X]", "vh_emit_int(W[0][0])\n"),
+            ("tuple", "", "(array<int>, int)", "(X, 1)", "let (pa, pb) = W\nvh_emit_int(pa[0] + pb - 1)\n"),
+            ("struct", "type Wp = {\n  item: array<int>\n}\n", "Wp", "Wp(X)", "vh_emit_int(W.item[0])\n"),
+        ];
+        for (wn, wty, wtype, wexpr, wread) in wraps {
+            for (sn, sty, sdecl, expr, drop_stmt) in srcs {
+                for into_array in [false, true] {
+                    for holder_first in [false, true] {
+                        if !into_array && holder_first {
+                            continue; // no holder to declare
+                        }
+                        let wrapped = wexpr.replace('X', expr);
+                        let hdecl = if into_array { format!("let h: array<{wtype}> = []\n") } else { String::new() };
+                        let decls = if holder_first { format!("{hdecl}{sdecl}") } else { format!("{sdecl}{hdecl}") };
+                        let (store, read) = if into_array {
+                            (format!("h.push({wrapped})\n"), format!("let w = h[0]\n{}", wread.replace('W', "w")))
+                        } else {
+                            (format!("let w = {wrapped}\n"), wread.replace('W', "w"))
+                        };
+                        let text = format!("use vh\n{wty}{sty}{decls}{store}{drop_stmt}{read}");
+                        v.push((
+                            format!("wrap:{wn}<-{sn}:{}", if !into_array { "into-a-local" } else if holder_first { "pushed:holder-first" } else { "pushed:source-first" }),
+                            text,
+                            vec![],
+                        ));
+                    }
+                }
+            }
+        }
         v
     }
 }
@@ -281,7 +316,7 @@ impl Prop for C06 {
     }
     fn rule(&self, tier: Tier) -> String {
         format!(
-            "for each of the {} P-gc programs (hand-modelled, generated heap programs, and the move family: store kind x source-drop kind x declaration order): breadth-first search of ALL interleavings of mutator instructions (M) with collector micro-steps \
+            "for each of the {} P-gc programs (hand-modelled, generated heap programs, the move family: store kind x source-drop kind x declaration order, and the wrap family: the moved object wrapped in a newly allocated variant / array / tuple / struct): breadth-first search of ALL interleavings of mutator instructions (M) with collector micro-steps \
              (start cycle, mark one grey object, sweep one object; per green thread) with at most {} cycles per thread, on the real VM and collector \
              in manual-GC + quarantine mode; in every state the independent reachability walk must find no reclaimed object and no access may touch one; \
              every maximal path's outcome must equal the collection-disabled run; states merged on (mutator step count, per-thread collector fingerprint); \
